@@ -32,6 +32,7 @@ func fixtures(dir string) error {
 		"upsk16.json": fmt.Sprintf("{\n \"Steve\": %q,\n \"Alex\": %q\n}\n", key(16, 1), key(16, 2)),
 		"upsk32.json": fmt.Sprintf("{\n \"Steve\": %q\n}\n", key(32, 3)),
 		"ds.txt":      "domain:example.com\nsuffix:example.org\n",
+		"ds_hint.txt": "# shadowsocks-go domain set capacity hint 1 1 9223372036854775807 4611686018427387904 DSKR\ndomain:example.com\nsuffix:example.org\n",
 		"ps.txt":      "10.0.0.0/8\nfd00::/8\n",
 	}
 	for n, c := range files {
@@ -83,6 +84,7 @@ type EffClient struct {
 type Eff struct {
 	Servers []EffServer
 	Clients []EffClient
+	Routes  []string // per configured route: "<source port criterion kind>/<destination ...>"
 }
 
 func (e *Eff) String() string {
@@ -97,7 +99,7 @@ func (e *Eff) String() string {
 	for _, c := range e.Clients {
 		cs = append(cs, fmt.Sprintf("%s/%s/%s%s/%s/%s", c.Name, c.Net, b01(c.TCP), b01(c.UDP), c.Pad, c.FS))
 	}
-	return "ok S[" + strings.Join(ss, " ") + "] C[" + strings.Join(cs, " ") + "]"
+	return "ok S[" + strings.Join(ss, " ") + "] C[" + strings.Join(cs, " ") + "] R[" + strings.Join(e.Routes, " ") + "]"
 }
 
 // load runs the real loading path on a JSON document; migrate additionally runs Config.Migrate first.
@@ -123,9 +125,22 @@ func load(doc []byte, migrate bool) (res ImplResult) {
 		}
 		res = ImplResult{Line: eff.String(), Eff: eff, RoutePanic: routeEveryServer(sc, m)}
 	}); p != nil {
-		return ImplResult{Line: fmt.Sprintf("panic %v", p)}
+		return ImplResult{Line: fmt.Sprintf("panic %v", p)}.asPanicClass()
 	}
 	return res
+}
+
+// asPanicClass: the two panics of http.ServeMux.Handle the model knows (reachable only without the F25 / F26
+// guards) are compared as error classes; they remain oracle failures.
+func (r ImplResult) asPanicClass() ImplResult {
+	r.ErrMsg = r.Line
+	switch {
+	case strings.Contains(r.Line, "conflicts with pattern"):
+		r.Line = "err PANIC:api-mux-conflict"
+	case strings.Contains(r.Line, "panic parsing \""):
+		r.Line = "err PANIC:api-secret-path"
+	}
+	return r
 }
 
 // ---------- reading the effective values out of the built services (read-only reflection) ----------
@@ -203,6 +218,39 @@ func effective(sc *service.Config, m *service.Manager) (eff *Eff, err error) {
 				}
 			}
 		}
+	}
+	// the port criteria the router built (one port / range set / bit set), read off the criterion types
+	rts := fld(fld(reflect.ValueOf(m), "router"), "routes")
+	for i := 0; i < len(sc.Router.Routes) && i < rts.Len(); i++ {
+		from, to := "-", "-"
+		crit := fld(rts.Index(i), "criteria")
+		for j := 0; j < crit.Len(); j++ {
+			c := crit.Index(j)
+			for c.Kind() == reflect.Interface || c.Kind() == reflect.Pointer {
+				c = c.Elem()
+			}
+			if c.Type().String() == "router.InvertedCriterion" {
+				c = c.FieldByName("Inner")
+				for c.Kind() == reflect.Interface || c.Kind() == reflect.Pointer {
+					c = c.Elem()
+				}
+			}
+			switch c.Type().String() {
+			case "router.SourcePortCriterion":
+				from = "single"
+			case "router.SourcePortRangeSetCriterion":
+				from = "ranges"
+			case "router.SourcePortSetCriterion":
+				from = "bitset"
+			case "router.DestPortCriterion":
+				to = "single"
+			case "router.DestPortRangeSetCriterion":
+				to = "ranges"
+			case "router.DestPortSetCriterion":
+				to = "bitset"
+			}
+		}
+		eff.Routes = append(eff.Routes, from+"/"+to)
 	}
 	for i := range sc.Clients {
 		cc := &sc.Clients[i]
@@ -316,6 +364,14 @@ var rules = []rule{
 	{"failed to create UDP relay service for", "send channel capacity", "udp-send-capacity"},
 	{"failed to create UDP relay service for", "NAT timeout", "nat-timeout"},
 	{"failed to post-initialize server", "", "server-upsk-store"},
+	{"failed to create router", "bad fromPorts", "route-port-zero"},
+	{"failed to create router", "bad toPorts", "route-port-zero"},
+	{"failed to create router", "port ranges", "route-port-ranges"},
+	{"failed to create router", "port criteria", "route-ports-all"},
+	{"failed to create API server", "no listeners specified", "api-no-listeners"},
+	{"failed to create API server", "certificate list", "api-certlist"},
+	{"failed to create API server", "client CA", "api-clientcas"},
+	{"failed to create API server", "secret path", "api-secret-path"},
 }
 
 func classify(msg string) string {
